@@ -516,3 +516,8 @@ def run(repo, col):
     rule_o4(repo, col)
     rule_o5(repo, col)
     rule_o6(repo, col)
+    # ==/2 and \\==/2 are Term.__eq__: its class test must be symmetric and constants must keep 1 and 1.0 apart (shared with C18)
+    from . import c18
+    col.rule("H5", "the class test inside Term.__eq__ is symmetric (==/2)")
+    col.rule("H6", "constant values are compared together with their type: 1 == 1.0 must fail (==/2, sort/2 duplicate removal)")
+    c18.rule_h5_h6(repo, col, repo.cls("problog.logic", "Term"))
